@@ -662,6 +662,53 @@ func c04StreamProgress(c *core.Ctx, fn *ssa.Function) {
 		}
 		break
 	}
+	// further conditions the compaction depends on inside the receive loop (found on the
+	// dominator chain above the pending-bytes test): "low offset > 0" only skips a move
+	// that would be a no-op; anything that excludes pending == 0 (high > low, pending > 0)
+	// also skips the reset of the two offsets — when every block received so far has been
+	// delivered the offsets then stay where they are, the buffer is used up to its end, and
+	// Read is called with an empty slice.
+	extraBad := ""
+	gateSeen := false
+	for b := cp.Block(); b != nil && b != loopH; b = b.Idom() {
+		d := b.Idom()
+		if d == nil || len(b.Preds) != 1 || b.Preds[0] != d {
+			continue
+		}
+		ifi, ok := d.Instrs[len(d.Instrs)-1].(*ssa.If)
+		if !ok {
+			continue
+		}
+		if !gateSeen { // the pending-bytes test itself
+			gateSeen = true
+			continue
+		}
+		if d == loopH {
+			break
+		}
+		op, x, y, okC := core.Cmp(ifi.Cond)
+		if !okC {
+			extraBad = c.Pos(ifi) + " (a condition that is not a comparison)"
+			continue
+		}
+		if d.Succs[1] == b {
+			op = core.Negate(op)
+		}
+		rx, ry := core.Resolve(core.StripConv(x)), core.Resolve(core.StripConv(y))
+		kx, xC := core.ConstInt(x)
+		ky, yC := core.ConstInt(y)
+		switch {
+		case lo[rx] && !hi[rx] && yC && ky == 0 && (op == token.GTR || op == token.NEQ):
+			// low > 0: nothing to move otherwise
+		case lo[ry] && !hi[ry] && xC && kx == 0 && (op == token.LSS || op == token.NEQ):
+		default:
+			extraBad = c.Pos(ifi) + " (" + ifi.Cond.String() + ")"
+		}
+	}
+	if extraBad != "" && haveShift {
+		c.Viol("R4.5", "stream-compaction-covers-pending", c.Pos(cp), "the compaction of the stream receive buffer — and with it the reset of the receive and parse offsets — also depends on "+extraBad+": when that does not hold (e.g. nothing is pending because every block received so far was delivered) the offsets stay where they are; the buffer is used up to its end and Read is then called with an empty slice (the receive loop spins or ends the face) although the stream is well-formed")
+		return
+	}
 	// rejection: pending > K / >= K whose asserted edge returns an error
 	rejectMin, haveReject := int64(0), false
 	returnsErr := func(b *ssa.BasicBlock) bool {
@@ -982,7 +1029,33 @@ func c04Round4(c *core.Ctx) {
 			if !isLen {
 				return 0, 0
 			}
-			if _, isLk := core.Strip(l).(*ssa.Lookup); !isLk {
+			// the stored message: looked up in the store here, or a local that holds the
+			// result of the (comma-ok) lookup made at the top — possibly joined with the
+			// freshly made slot list on the path that creates the entry
+			var fromStore func(v ssa.Value, d int) bool
+			fromStore = func(v ssa.Value, d int) bool {
+				if d > 4 {
+					return false
+				}
+				switch y := core.Strip(v).(type) {
+				case *ssa.Lookup:
+					_, path := core.FieldPath(y.X)
+					return len(path) > 0
+				case *ssa.Extract:
+					if lk, isLk := y.Tuple.(*ssa.Lookup); isLk && y.Index == 0 {
+						_, path := core.FieldPath(lk.X)
+						return len(path) > 0
+					}
+				case *ssa.Phi:
+					for _, e := range y.Edges {
+						if fromStore(e, d+1) {
+							return true
+						}
+					}
+				}
+				return false
+			}
+			if !fromStore(l, 0) {
 				if _, path := core.FieldPath(l); len(path) == 0 {
 					return 0, 0
 				}
